@@ -25,7 +25,13 @@ func (list *List[T]) ToJSON() ([]byte, error) {
 
 // FromJSON populates list's elements from the input JSON representation.
 func (list *List[T]) FromJSON(data []byte) error {
-	err := json.Unmarshal(data, &list.elements)
+	// decode into a fresh slice: decoding into the live one would keep prior
+	// elements (null entries) and leave a half-decoded list behind on error
+	var elements []T
+	err := json.Unmarshal(data, &elements)
+	if err == nil {
+		list.elements = elements
+	}
 	return err
 }
 
